@@ -132,7 +132,7 @@ type Property interface {
 	Gen(r *Rng, run uint64, tier string) *Plan
 	// Expand turns a generated plan into the concrete plans to check
 	// (e.g. a single-fault sweep). Most properties return the plan itself.
-	Expand(p *Plan) []*Plan
+	Expand(t *testing.T, p *Plan) []*Plan
 	// Check executes a concrete plan and judges it. A nil result means the
 	// property held. st may be nil (during shrinking and replay).
 	Check(t *testing.T, p *Plan, st *Stats) *Violation
@@ -304,7 +304,7 @@ func Main(t *testing.T) {
 		if len(st.Samples) < 3 && (i == 0 || i == 7 || i == 19) {
 			st.Samples = append(st.Samples, slimPlan(plan))
 		}
-		for _, cp := range P.Expand(plan) {
+		for _, cp := range P.Expand(t, plan) {
 			st.Cases++
 			st.ByConfig[cp.Config]++
 			for _, f := range cp.Faults {
